@@ -241,29 +241,6 @@ theorem C10_scenario_proto_counterexample : ¬ C10_scenario_proto_statement := b
 
 /-! ## tags -/
 
-theorem httpTag_eq_expected (cfg : AutoTagCfg) (t p : String) :
-    httpTag cfg t p = expectedTag cfg.enabled cfg.uriElements cfg.noTagOnly t p := by
-  have ha : autotag cfg.uriElements p = firstElements cfg.uriElements p := by
-    simp [autotag, firstElements, autotag_eq_firstElements]
-  have hne : ∀ a b : String, a ≠ "" → a ++ "|" ++ b ≠ "" := by
-    intro a b _ h
-    have := congrArg String.length h
-    simp [String.length_append] at this
-  unfold httpTag expectedTag
-  rw [ha]
-  by_cases h1 : (cfg.enabled && (!cfg.noTagOnly || decide (t = ""))) = true
-  · simp only [h1, if_true]
-    by_cases h2 : t = ""
-    · subst h2
-      by_cases h3 : firstElements cfg.uriElements p = ""
-      · simp [addTag, h3, Model.C10.emptyTag, Spec.C10.emptyTag]
-      · simp [addTag, h3]
-    · simp [addTag, h2, hne t _ h2]
-  · simp only [h1]
-    by_cases h2 : t = ""
-    · subst h2; simp [addTag, Model.C10.emptyTag, Spec.C10.emptyTag]
-    · simp [h2]
-
 /-- Tags: the http gun's sample carries the ammo's tag, the auto-tag built from the first `uri-elements` path elements
 (alone, or joined by `|` to the ammo's tag when `no-tag-only` is off), or `__EMPTY__` when there is none — for ALL
 paths, tags and depths; an invalid ammo carries `__EMPTY__`; the gRPC gun carries the ammo's tag; scenario samples
@@ -452,19 +429,18 @@ theorem C10_ids_unique_unbounded_counterexample : ¬ C10_ids_unique_unbounded_st
   ids_wrap (List.replicate (idModulus + 1) ()) (List.length_replicate ..) (h _)
 
 /-- A whole pool run of a plain http gun (http, http2, connect): instances acquire ammo in any interleaving (each
-acquisition takes the next id), every acquired ammo is shot once with ANY outcome (response, transport error, broken
-body, invalid ammo, fatal panic) under any auto-tag setting, and the samples reach the aggregator in ANY order
-(`reported` is a permutation of the run's samples): exactly one sample per acquired ammo and pairwise distinct ids. -/
+acquisition takes the next id), every acquired ammo is either fired once — with ANY outcome (response, transport error,
+broken body, invalid ammo, fatal panic) under any auto-tag setting — or dropped unfired (schedule over, run cancelled,
+shot discarded), and the samples reach the aggregator in ANY order (`reported` is a permutation of the run's samples):
+exactly one sample per FIRED ammo, and pairwise distinct ids. -/
 theorem C10_run_ids_unique {ι : Type} (cfg : AutoTagCfg) (c : Nat) (plans : List (ι × ShotPlan))
     (h : plans.length ≤ idModulus) (reported : List Sample) (hperm : reported.Perm (runPool cfg c plans)) :
-    reported.length = plans.length ∧ (reported.map (·.id)).Nodup := by
+    reported.length = (plans.filter (·.2.fired)).length ∧ (reported.map (·.id)).Nodup := by
   have hids := runPool_ids cfg c plans
   constructor
-  · rw [hperm.length_eq]
-    have := congrArg List.length hids
-    simpa using this
-  · rw [(hperm.map (·.id)).nodup_iff, hids]
-    exact ids_nodup c _ h
+  · rw [hperm.length_eq]; exact hids.2
+  · rw [(hperm.map (·.id)).nodup_iff]
+    exact (ids_nodup c _ h).sublist hids.1
 
 /-- The id carried by the http gun's sample is the ammo's id: distinct ammo ids give distinct sample ids. -/
 theorem C10_sample_id (cfg : AutoTagCfg) (s : HttpShot) (hc : s.connectHook = none) :
@@ -498,13 +474,25 @@ example : (shootHttp ⟨true, 1, false⟩ { ammoTag := "t", id := 7, path := "/a
 example : (shootScenario "scn" [⟨"a", .received 200 .ok⟩, ⟨"b", .received 500 .err⟩, ⟨"c", .received 200 .ok⟩]).reports
     = [{ tags := "scn.a", id := 0, proto := 200, net := 0 }, { tags := "scn.b|__EMPTY__", id := 0, proto := 0, net := 999 }] := by decide
 example : executedSteps [⟨"a", .received 200 .ok⟩, ⟨"b", .received 500 .err⟩, ⟨"c", .received 200 .ok⟩] = 2 := by decide
--- a run of three acquisitions by two instances: one sample each, ids 1 2 3 (any arrival order is a permutation)
-example : (runPool ⟨false, 2, true⟩ 0 [("i1", ⟨"a", "/x", .response 200 none, false⟩), ("i2", ⟨"", "/y", .doErr .timeout, false⟩),
-    ("i1", ⟨"", "/z", .response 503 (some .other), false⟩)]).map (fun r => (r.id, r.proto, r.net))
-    = [(1, 200, 0), (2, 0, 110), (3, 503, 999)] := by decide
+-- a run of four acquisitions by two instances, one of them never fired: one sample per fired ammo, ids 1 2 4
+example : (runPool ⟨false, 2, true⟩ 0 [("i1", ⟨"a", "/x", .response 200 none, false, true⟩), ("i2", ⟨"", "/y", .doErr .timeout, false, true⟩),
+    ("i2", ⟨"", "/w", .response 200 none, false, false⟩),
+    ("i1", ⟨"", "/z", .response 503 (some .other), false, true⟩)]).map (fun r => (r.id, r.proto, r.net))
+    = [(1, 200, 0), (2, 0, 110), (4, 503, 999)] := by decide
 example : NoPanic [⟨"a", .received 200 .ok⟩, ⟨"b", .received 500 .err⟩] := by
   intro s hs st; simp at hs; rcases hs with rfl | rfl <;> simp
 example : (3 : Nat) ≤ idModulus := by decide
+-- hypotheses of the "drops the sample" / fatal theorems are satisfiable
+example : ({ connectHook := some false, ammoTag := "", id := 1, path := "/", outcome := .response 200 none } : HttpShot).connectHook = some false := rfl
+example : (shootScenario "s" [⟨"a", .received 200 .panic⟩, ⟨"b", .received 200 .ok⟩]) = { reports := [], panicked := true } := by decide
+example : shootHttp ⟨true, 1, false⟩ { ammoTag := "t", id := 3, path := "/a/b", outcome := .doPanic }
+    = { reports := [{ tags := "t|/a", id := 3, proto := 0, net := 0 }], panicked := true } := by decide
+-- C10_netcode, last clause: an unrecognised chain that is neither a timeout nor ends in an errno (the connect gun's dial error)
+example : ¬ IsTimeout (.urlError (.causer (.opError (.syscallError (.errno 111))))) := by simp [IsTimeout, isNetError, hasTimeout]
+example : ∀ n, innermost (cause (stripUnderlying (.urlError (.causer (.opError (.syscallError (.errno 111))))))) ≠ .errno n := by
+  intro n; simp [stripUnderlying, cause, innermost]
+-- C10_run_ids_unique: any arrival order, e.g. the reversed one
+example : ([3, 2, 1] : List Nat).Perm [1, 2, 3] := by decide
 -- three instances interleaved
 example : runIds 0 ["i1", "i2", "i1", "i3", "i2"] = [("i1", 1), ("i2", 2), ("i1", 3), ("i3", 4), ("i2", 5)] := by decide
 example : (shootGrpc "tg" (.invoked 14)).reports = [{ tags := "tg", id := 0, proto := 503, net := 0 }] := by decide
